@@ -135,8 +135,40 @@ def _mapping_run(case):
     return [(f"mapping-output:{k}", dict(d, out=out[:400])) for k, d in oracles.c18(tree)[:1]]
 
 
+def positioned_texts(sh):
+    """Block comments that share the line of a keyword (`let /* c */`, `let /*` + lines + `*/`) at every nesting depth the
+    layout rules distinguish: the injected-trivia generator of this check only places comments on lines of their own or at
+    the end of a line.  Each text is valid; the rebuilt text must be in normal form."""
+    import random
+
+    r = random.Random(sh.hseed + 23)
+    forms = [lambda ind: "/* c */", lambda ind: "/** doc */", lambda ind: "/* first\n" + ind + "   second */", lambda ind: "/*\n" + ind + "  first\n" + ind + "  second\n" + ind + "*/"]
+    wraps = [("{0}", 0), ("{{\n  a = {0};\n}}", 2), ("[\n  ({0})\n]", 2), ("x:\n{0}", 0), ("{{\n  a = {{\n    b = {0};\n  }};\n}}", 4), ("{{\n  a = [\n    ({0})\n  ];\n}}", 4), ("f ({0})", 0)]
+    n = 0
+    for wi, (w, ind) in enumerate(wraps):
+        for fi, form in enumerate(forms):
+            n += 1
+            if n % sh.nshards != sh.index:
+                continue
+            pad = " " * ind
+            for let in ("let {c}\n" + pad + "  b = 1;\n" + pad + "in\n" + pad + "b", "let {c} b = 1; in b", "let\n" + pad + "  b = 1;\n" + pad + "in {c}\n" + pad + "b"):
+                text = w.format(let.format(c=form(pad))) + "\n"
+                tree = cst.parse(text)
+                if tree.root.has_error or not cst.env_ok(text):
+                    sh.notes["positioned-invalid"] += 1
+                    continue
+                status, fails = check(text, tree)
+                case = {"text": text, "perts": []}
+                sh.record(case, True, ["positioned", f"wrap:{wi}", f"form:{fi}"])
+                if status == "ok":
+                    for k, d in fails[:1]:
+                        sh.fail(f"{k}|positioned|wrap{wi}|form{fi}", case, d)
+    del r
+
+
 def run_shard(sh):
     RT.run_shard(sh, CFG)
+    positioned_texts(sh)
     edit_outputs(sh, max(20, int(sh.params["examples"] * sh.params.get("scale", 1.0)) // 8))
 
 
